@@ -127,5 +127,5 @@ LIFE_RULE = ("Lifecycle lab: the real runTracerouteOnce for udp, icmp, tcp-syn (
              "the k-th WriteTo / SetReadDeadline / Read (k = 1, 2, middle, last, last+1; every k in the thorough tier) x {fatal error, deadline error, zero-length read}; after the call returns the virtual clock runs on for 2 s so that any goroutine "
              "the run left behind touches its closed handles. Observed: error / result nil-ness, errors.Is(err, injected cause), per-handle close counts, use after close. SACK: the real-run part of the policy lab (kind 12: filter/send/read faults, handles closed once).")
 PROPS["C10"] = dict(num=10, labs=["life", "par"], rule=LIFE_RULE + " " + PAR_RULE, nontrivial="any fault-injection case", trivial_classes=[],
-    signatures={"10.1": "a handle was not closed exactly once, or was used after its close (also by a goroutine outliving the call)", "10.2": "the returned error does not wrap the injected cause", "10.3": "an error was returned together with a result, or neither", "10.9": "the entry point panicked"},
+    signatures={"10.1": "a handle was not closed exactly once, or was used after its close (also by a goroutine outliving the call)", "10.2": "the returned error does not wrap the injected cause", "10.3": "an error was returned together with a result, or neither", "10.4": "a SendProbe failure (also one that was in flight when the destination answer was processed) did not fail the run with its cause", "10.9": "the entry point panicked"},
     trusted_base=PAR_TRUSTED + ["fault injection happens at the Source/Sink seam; the real AF_PACKET / raw-socket code below it is not exercised"], assumptions=[])
